@@ -6,21 +6,6 @@ writing `s...` instead is the renaming `.anonymous_ellipsis_axis ↦ s`.
 -/
 namespace Einx.Solve
 
-/-- the variable of an expanded axis after renaming -/
-def renVar (f : String → String) (a : String × List Nat × Var) : Var := f a.1 ++ idxSuffix a.2.1
-
-def renAxis (f : String → String) (a : String × List Nat × Var) : String × List Nat × Var :=
-  (f a.1, a.2.1, renVar f a)
-
-/-- Renaming acts on the expanded variables as a bijection: two expanded axes share their variable
-before the renaming iff they do after it.  (Follows from injectivity of `f` on the names when no
-name contains a `.`; decidable.) -/
-def renOK (f : String → String) (inp : Input) (ρ : Var → Nat) : Bool :=
-  (inp.axes ρ).all (fun a => (inp.axes ρ).all (fun b => (a.2.2 == b.2.2) == (renVar f a == renVar f b)))
-
-/-- the names of an input: axis occurrences and constraints -/
-def Input.names (inp : Input) : List String := inp.occs.map (·.1) ++ inp.constraints.map (·.name)
-
 mutual
 theorem rename_axesOf (ρ : Var → Nat) (f : String → String) : ∀ (e : Expr) (idx : List Nat),
     axesOf ρ idx (renameE f e) = (axesOf ρ idx e).map (renAxis f)
